@@ -367,6 +367,23 @@ pub fn judge(s: &[u8], env: &mut Env, st: &mut Stats) -> Option<(String, String)
                 }
             }
         }
+        Verdict::MustNotAccept(why) => {
+            st.rejected_listed += 1;
+            if terr.is_some() {
+                st.rejected_by_lexer += 1;
+                return None;
+            }
+            env.out.clear();
+            let r = guarded(|| run_vec(env.tree.node(), &mut env.dev, s, &mut env.out));
+            match r {
+                Ok(Ok(())) => Some(("value-misrepresented".into(), format!("`{}` ({why}) is accepted end to end (tokens {:?})", esc(s), &toks[..]))),
+                Ok(Err(e)) if e.get_code() == -113 => Some(("value-misrepresented".into(), format!("`{}` ({why}) passes the tokenizer as {:?}", esc(s), &toks[..]))),
+                _ => {
+                    st.rejected_by_dispatcher += 1;
+                    None
+                }
+            }
+        }
         Verdict::Unspec(_) => {
             if terr.is_some() {
                 st.unspec_rejected += 1;
@@ -633,7 +650,7 @@ pub fn run(ctx: &'static Ctx) -> i32 {
     let a_evals = stats.evals;
 
     // (d) contextual sweeps
-    let prefixes: &[&str] = &["A #", "A #1", "A #2", "A \"", "A '", "A (", "A 1", "A 1,", "E:A? ", "*A ", "A 1 ", "A #H", "A #0"];
+    let prefixes: &[&str] = &["A #HFFFFFFFFFFFFFF", "A #Q17777777777777777777", "A #", "A #1", "A #2", "A \"", "A '", "A (", "A 1", "A 1,", "E:A? ", "*A ", "A 1 ", "A #H", "A #0"];
     let m = ctx.tier.pick(4u32, 5u32);
     let kd = SIGMA_DATA.len() as u64;
     let per = count_upto(kd, m);
@@ -649,7 +666,7 @@ pub fn run(ctx: &'static Ctx) -> i32 {
         || (Env::new(shared), Stats::default()),
         |idx, (env, st): &mut (Env, Stats)| {
             let p = prefixes[(idx / per) as usize].as_bytes();
-            let mut buf = [0u8; 24];
+            let mut buf = [0u8; 48];
             buf[..p.len()].copy_from_slice(p);
             let l = nth_string(SIGMA_DATA, idx % per, &mut buf[p.len()..]);
             let s = &buf[..p.len() + l];
